@@ -700,8 +700,11 @@ func buildHandlers() map[string]handler {
 			return Str{conc: strings.Join(parts, sep.conc)}
 		}
 		if anyAtom {
-			// formatting of arbitrary names: opaque (never the subject of a property)
-			return opaqueStr(e, "join")
+			// text built from arbitrary names: opaque as long as it is only text (messages, logs);
+			// comparing or ordering it needs the names' content (see builtCheck)
+			r := opaqueStr(e, "join")
+			r.built = true
+			return r
 		}
 		var bs []*Term
 		for i := 0; i < sl.len; i++ {
